@@ -135,7 +135,11 @@ export function makeCanon(state, protocol) {
           d.dirAlt && d.dirAlt.length
             ? { $oneof: [canon(d.dir), ...d.dirAlt.map(canon)] }
             : canon(d.dir);
-        return { dir, value: canon(d.value), arg: canon(d.arg), mods };
+        const arg =
+          d.argAlt && d.argAlt.length
+            ? { $oneof: [canon(d.arg), ...d.argAlt.map(canon)] }
+            : canon(d.arg);
+        return { dir, value: canon(d.value), arg, mods };
       });
     }
     if (hints) {
